@@ -98,7 +98,7 @@ def plan(tier, seed, avoid):
     if tier == "quick":
         n, per, stride, nsub = 96, 16, 4, 2
     else:
-        n, per, stride, nsub = 1600, 50, 1, 12
+        n, per, stride, nsub = 1000, 50, 1, 12
     for t in TARGETS:
         for s in range(0, n, per):
             specs.append({"part": "irgen", "target": t, "start": s, "count": per})
